@@ -44,6 +44,8 @@ const (
 	kFunc // a parameter of function type without results: its calls are logged (callback log)
 	// fifth part (code_iface.go)
 	kIface // a value of interface type: the abstract state of the object behind it -> a type parameter
+	// ninth part (code_osap.go)
+	kFnVal // a struct field of function type, defunctionalised: the code (Int) of the function stored in it; name = the dispatch function
 )
 
 type gtype struct {
@@ -82,7 +84,7 @@ func (t gtype) bits() int {
 
 func (t gtype) lean() string {
 	switch t.kind {
-	case kInt:
+	case kInt, kFnVal:
 		return "Int"
 	case kI32:
 		return "Int32"
@@ -220,6 +222,7 @@ type codegen struct {
 	errVarUse       []string
 	// code_parse.go: the topic being translated assumes that pointer parameters are not nil
 	ptrNonNil bool
+	fnFields  map[string]*fnField // code_osap.go: struct fields of function type
 	// code_topics.go (promoted3): a slice parameter only as the only slice the function can reach
 	strictSliceParams bool
 	// code_part4.go (topic.declOrder): state and join tuples in declaration order
@@ -433,6 +436,10 @@ func (c *codegen) structFields(name string, at ast.Node) []sfield {
 		if leanReserved[f.name] {
 			c.fail(at, "field name %s of struct %s is reserved in Lean", f.name, name)
 		}
+		if f.typ == "func" && c.phase5 { // code_osap.go: a field of function type is a code
+			out = append(out, sfield{f.name, c.fnFieldOf(goStruct(name), f.name, at).gtype()})
+			continue
+		}
 		out = append(out, sfield{f.name, c.typeOfStr(f.typ, name, at)})
 	}
 	return out
@@ -607,7 +614,7 @@ func (c *codegen) rawPromotedFieldType(t, f string) string {
 
 func zeroValue(t gtype) string {
 	switch t.kind {
-	case kInt, kU8, kU32, kU64, kI32:
+	case kInt, kU8, kU32, kU64, kI32, kFnVal:
 		return "0"
 	case kBool:
 		return "false"
@@ -923,6 +930,9 @@ func (c *codegen) expr(e ast.Expr, want gtype, bare bool) (string, gtype) {
 		}
 		if v := c.lookup(x.Name); v != nil {
 			return v.lean, v.typ
+		}
+		if want.kind == kFnVal { // code_osap.go: a package-level function stored into a field of function type
+			return c.fnFieldCode(want, x), want
 		}
 		if c.phase2 {
 			if ev := c.errVarOf(x.Name, e); ev != nil {
